@@ -2,7 +2,7 @@
    Statements only; proofs in C04/Proofs*.v (built on the C02 solver model). *)
 From Coq Require Import List Arith QArith Qminmax Lqa Lia Bool.
 From AIT Require Import Base.Qx Base.Mdp Base.MdpExec C02.Model C02.Spec C02.ProofsVec C02.ProofsCross
-  C02.ProofsSched C02.ProofsProj C02.ProofsIP C02.ProofsPrunePw C04.Model C04.ProofsPlan C04.ProofsExec C04.ProofsRun C04.ProofsBound C04.ProofsPoint.
+  C02.ProofsSched C02.ProofsProj C02.ProofsIP C02.ProofsPrunePw C04.Model C04.ProofsPlan C04.ProofsExec C04.ProofsRun C04.ProofsBound C04.ProofsPoint C02.ProofsSchedAll.
 Import ListNotations.
 Local Open Scope Q_scope.
 
@@ -13,19 +13,19 @@ Local Open Scope Q_scope.
    the merge schedule (both link-concatenation orders) and all pruning calls. *)
 Theorem entry_is_plan_ip_step : forall (prune : vlist -> vlist),
   (forall l e, In e (prune l) -> In e l) -> (forall l, l <> [] -> prune l <> []) ->
-  forall m, (0 < nO m)%nat -> obs_clean m -> ops_ok (nO m) = true ->
+  forall m, (0 < nO m)%nat -> obs_clean m ->
   forall w, w <> [] -> wfl (nS (pm m)) w -> Forall (entry_is_plan m w) (ip_step prune m w).
-Proof. exact ip_step_entries_are_plans. Qed.
+Proof. intros prune H1 H2 m HO Hc. exact (ip_step_entries_are_plans prune H1 H2 m HO Hc (ops_ok_all (nO m) HO)). Qed.
 Print Assumptions entry_is_plan_ip_step.
 
 (* The whole run: every horizon's list consists of plans over the previous horizon's list
    (links_in_range is the [links_ok] component of [entry_is_plan]). *)
 Theorem ip_run_is_plan_chain : forall (prune : vlist -> vlist),
   (forall l e, In e (prune l) -> In e l) -> (forall l, l <> [] -> prune l <> []) ->
-  forall m, (0 < nO m)%nat -> (0 < nA (pm m))%nat -> obs_clean m -> ops_ok (nO m) = true ->
+  forall m, (0 < nO m)%nat -> (0 < nA (pm m))%nat -> obs_clean m ->
   forall h, let '(older, cur) := ip_chain prune m h in
             chain_ok m older cur /\ cur <> [] /\ wfl (nS (pm m)) cur.
-Proof. exact ip_chain_ok. Qed.
+Proof. intros prune H1 H2 m HO HA Hc. exact (ip_chain_ok prune H1 H2 m HO HA Hc (ops_ok_all (nO m) HO)). Qed.
 Print Assumptions ip_run_is_plan_chain.
 
 Theorem ip_run_is_chain : forall prune m h,
@@ -68,11 +68,12 @@ Print Assumptions best_index_attains.
 Theorem exec_matches_promise : forall (prune : vlist -> vlist),
   (forall l e, In e (prune l) -> In e l) -> (forall l, l <> [] -> prune l <> []) ->
   (forall S l b, l <> [] -> wfl S l -> nonneg b -> length b = S -> vbest (prune l) b == vbest l b) ->
-  forall m h tau, wf_pomdp m -> obs_clean m -> ops_ok (nO m) = true -> nonneg tau -> length tau = nS (pm m) ->
+  forall m h tau, wf_pomdp m -> obs_clean m -> nonneg tau -> length tau = nS (pm m) ->
   let '(older, cur) := ip_chain prune m h in
   exec_return m older cur (best_index cur tau) tau == vbest cur tau /\ vbest cur tau == EV m h tau.
 Proof.
-  intros prune H1 H2 H3 m h tau Hwf Hc Hs Hn Hl.
+  intros prune H1 H2 H3 m h tau Hwf Hc Hn Hl.
+  pose proof (ops_ok_all (nO m) (HO m Hwf)) as Hs.
   pose proof (ip_chain_ok prune H1 H2 m (HO m Hwf) (HA m Hwf) Hc Hs h) as Hch.
   pose proof (ip_run_value prune H1 H2 H3 m Hwf Hc Hs h) as Hv. cbv zeta in Hv.
   rewrite ip_run_chain, last_last in Hv.
